@@ -41,6 +41,7 @@ type logRec struct {
 	Faulted   bool     `json:"faulted"`
 	Ordinal   int      `json:"ordinal"`
 	Pid       int      `json:"pid"`
+	Phase     string   `json:"phase"` // "start" when the invocation begins, "end" when it is over
 }
 
 func appendLog(rec logRec) {
@@ -92,7 +93,9 @@ func main() {
 	args := os.Args[1:]
 	joined := strings.Join(args, " ") + " "
 	cwd, _ := os.Getwd()
-	rec := logRec{Argv: args, GitDir: os.Getenv("GIT_DIR"), GraftFile: os.Getenv("GIT_GRAFT_FILE"), Cwd: cwd, Pid: os.Getpid()}
+	rec := logRec{Argv: args, GitDir: os.Getenv("GIT_DIR"), GraftFile: os.Getenv("GIT_GRAFT_FILE"), Cwd: cwd, Pid: os.Getpid(), Phase: "start"}
+	appendLog(rec) // the order of the start lines is the order in which git-sizer launched its children
+	rec.Phase = "end"
 	var fl *fault
 	if s := os.Getenv("VERIF_FAULT"); s != "" {
 		var f fault
